@@ -102,14 +102,14 @@ Print Assumptions C14_tool_compute_judge_sound.
 
 (* ---------- the judge accepts EXACTLY the records that satisfy its specification: besides soundness (above) also completeness,
    i.e. a record of a correct answer is never rejected (JudgeComplete2.v) ---------- *)
-From Cmr Require JudgeComplete2.
+From Cmr Require JudgeComplete2 JudgeCompleteLeaf.
 Theorem C14_judge_leaf_accepts_exactly_the_specification :
     forall rec : list Z,
     LeafModel.judge_leaf rec = 0%Z <->
     (exists (fn : Z) (args : list Z) (r : Z) (rest : list Z),
     LeafJudgeProofs.leaf_input rec = Some (fn, args, r, rest) /\
     LeafModel.leaf_gen fn args = Some (Some r) /\ LeafModel.leaf_spec fn args r = true).
-Proof. exact JudgeComplete2.judge_leaf_iff_total. Qed.
+Proof. exact JudgeCompleteLeaf.judge_leaf_iff_total. Qed.
 Print Assumptions C14_judge_leaf_accepts_exactly_the_specification.
 Theorem C14_judge_reprt_accepts_exactly_the_specification :
     forall (rec : list Z) (signed : bool) (rc cf : Z) (Mo : option (nat * nat * mat)) 
